@@ -3,7 +3,8 @@ import GqlVerif.Model.Codegen
 Mirror of the default-value constructors of `codegen.rs` (`generate_variables_struct`, the closure building
 `pub fn default_<name>() -> <type> { <literal> }`): `graphql_parser_value_to_literal`, `scalar_value_to_literal`,
 `render_object_literal`, `box_if_recursive`.  `Codegen.literalOk` (in `Codegen.lean`) models only their panics; here
-the emitted expression itself is modelled (`LitExpr`), with the same panics
+the emitted expression itself is modelled (`LitExpr`), with the same panics (`null` at a nullable position is `None`,
+at a non-null position it panics; `stripRequired` / `valueIsNull` are defined next to `literalOk`)
 (`Proofs/C04DefaultsLit.lean`: `valueToLiteral_ok_iff_literalOk`).
 
 Shape of the recursion.  The Rust `graphql_parser_value_to_literal` recurses (a) into the elements of a list value,
@@ -84,11 +85,6 @@ namespace Codegen
 def boxIfRecursive (c : Ctx) (value : LitExpr) (ty : TypeId) : LitExpr :=
   let boxed := match ty.asInput? with | some iid => inputIsRecursive c.s iid | none => false
   if boxed then .box value else value
-
-/-- `let (is_optional, qualifiers) = match qualifiers.first() { Some(Required) => (false, &qualifiers[1..]), _ => (true, qualifiers) }` -/
-def stripRequired : List Qual → Bool × List Qual
-  | .required :: rest => (false, rest)
-  | quals => (true, quals)
 
 /-- `if is_optional { quote!(Some(#inner)) } else { inner }` -/
 def optWrap (isOptional : Bool) (inner : LitExpr) : LitExpr :=
@@ -190,6 +186,8 @@ def literalInner (c : Ctx) : Nat → Value → TypeId → List Qual → Outcome 
   | fuel+1, value, ty, quals =>
     -- `graphql_parser_value_to_literal` on an element / a member
     let lit (v : Value) (t : TypeId) (qs : List Qual) : Outcome LitExpr :=
+      -- `null` is a valid default wherever the type is nullable
+      if (stripRequired qs).1 && valueIsNull v then pure .none else
       (optWrap (stripRequired qs).1) <$> literalInner c fuel v t (stripRequired qs).2
     match quals, value with
     | .list :: rest, .list elements =>
@@ -204,6 +202,9 @@ def literalInner (c : Ctx) : Nat → Value → TypeId → List Qual → Outcome 
 /-- `graphql_parser_value_to_literal`: the literal for `value` at the type `ty` with the given qualifiers (the
     outermost one first) -/
 def valueToLiteral (c : Ctx) (fuel : Nat) (value : Value) (ty : TypeId) (quals : List Qual) : Outcome LitExpr :=
+  -- `if is_optional && matches!(value, Value::Null) { return quote!(None); }`: `null` is a valid default wherever the
+  -- type is nullable (checked right after `is_optional` is computed, before anything else)
+  if (stripRequired quals).1 && valueIsNull value then pure .none else
   (optWrap (stripRequired quals).1) <$> literalInner c fuel value ty (stripRequired quals).2
 
 /-- `render_object_literal` (members are visited with `fuel`) -/
